@@ -98,6 +98,7 @@ type UnitContract struct {
 	File     string
 	Lemma    bool
 	Vars     []GhostVar // lemma variables
+	UnrollLoops int     // >0: loops of the unit without a contract are unrolled up to this many iterations
 	Opaque   []string   // callee names to treat as opaque (havoc) even if they have contracts
 	Fresh    []string   // local variable names havoced at region entry are implicit; listed for docs
 	FPChecks []*FPCheck // exhaustive concrete evaluation of rounding-critical statements (fpx.go)
@@ -595,6 +596,17 @@ func (cs *ContractSet) parseFile(path, pkgdir string) error {
 			}
 			curLoop.Decreases = e
 			curLoop.DecText = txt
+		case strings.HasPrefix(t, "unroll-loops "):
+			// unit level: every loop of the unit WITHOUT a contract of its own is unrolled completely up to N iterations
+			// (with its unwinding obligation) - the contract then does not depend on how the loops are written
+			if cur == nil {
+				return fail(l, "unroll-loops outside unit")
+			}
+			n, err := strconv.Atoi(strings.TrimSpace(strings.TrimPrefix(t, "unroll-loops ")))
+			if err != nil || n <= 0 {
+				return fail(l, "unroll-loops N")
+			}
+			cur.UnrollLoops = n
 		case strings.HasPrefix(t, "unroll"):
 			if curLoop == nil {
 				return fail(l, "unroll outside loop")
